@@ -196,6 +196,30 @@ def build_vc_asan():
     return os.path.join(td, "x86_64-unknown-linux-gnu", "release", "vc")
 
 
+def build_asan(what=("slicec", "vh")):
+    """AddressSanitizer builds (nightly) of the real compiler binary and of the library worker / fake generator, from the
+    working tree. Returns {name: path} like build()."""
+    td = os.path.join(tdir(), "cargo-asan")
+    env = env_for_cargo("-Zsanitizer=address -Cforce-frame-pointers=yes")
+    base = ["cargo", "+nightly", "build", "--offline", "--release", "--target", "x86_64-unknown-linux-gnu", "--target-dir", td]
+    out = {}
+    rel = os.path.join(td, "x86_64-unknown-linux-gnu", "release")
+    with open(os.path.join(tdir(), ".build.lock"), "w") as lk:
+        fcntl.flock(lk, fcntl.LOCK_EX)
+        if "slicec" in what:
+            _run(base + ["--manifest-path", os.path.join(repo(), "Cargo.toml"), "-p", "slicec", "--bin", "slicec"], env)
+            out["slicec"] = os.path.join(rel, "slicec")
+        if "vh" in what:
+            g = _gen_vh()
+            _run(base + ["--manifest-path", os.path.join(g, "Cargo.toml")], env)
+            out["vh"] = os.path.join(rel, "vh")
+            out["fakegen"] = os.path.join(rel, "fakegen")
+    return out
+
+
+ASAN_OPTIONS = "halt_on_error=1:abort_on_error=1:allocator_may_return_null=1:detect_leaks=0:detect_stack_use_after_return=0"
+
+
 def miri_cmd():
     """Command prefix + env to run vc under Miri: returns (argv_prefix, env, cwd)."""
     g = _gen_vc()
